@@ -2,6 +2,7 @@
 import q
 import callgraph as CG
 from terms import show, alts, walk, strip_casts
+from q import is_param, res
 
 READER = 'asefile::reader::AseReader::'
 READ_PRIMS = ['byte', 'word', 'short', 'dword', 'long', 'string', 'read_exact', 'read_vec', 'skip_reserved', 'take_bytes', 'unzip']
@@ -137,3 +138,24 @@ def dispatch_arms(body):
                 work.extend(body.cfg.succ[x])
         out.append((kind, s, reg, outer))
     return out
+
+
+def is_byte_size(fx, sz, fmt_idx, cnt_idx):
+    """sz is bytes_per_pixel(<param fmt_idx>) * <param cnt_idx>, written inline or through pixel::output_size (whose body is then
+    required to be that product of its own two parameters)"""
+    def product(t, fi, ci):
+        t = strip_casts(t)
+        if t[0] != 'bin' or t[1] not in ('Mul', 'MulWithOverflow'):
+            return False
+        kinds = set()
+        for x in (strip_casts(t[2]), strip_casts(t[3])):
+            if x[0] == 'call' and x[1].endswith('PixelFormat::bytes_per_pixel') and is_param(strip_casts(x[2][0]), fi):
+                kinds.add('bpp')
+            elif is_param(x, ci):
+                kinds.add('n')
+        return kinds == {'bpp', 'n'}
+    sz = strip_casts(sz)
+    if sz[0] == 'call' and sz[1] == 'asefile::pixel::output_size':
+        ob = fx.body('asefile::pixel::output_size')
+        return ob is not None and product(res(ob).ret(), 1, 2) and is_param(strip_casts(sz[2][0]), fmt_idx) and is_param(strip_casts(sz[2][1]), cnt_idx)
+    return product(sz, fmt_idx, cnt_idx)
